@@ -33,13 +33,18 @@ IsEv == l <= Len(T) /\ l' = l + 1 /\ UNCHANGED tid
 CfgOk == Canon(cfg) /\ cfg.env \in Envs /\ cfg.role \in Roles /\ \A o \in Opt : cfg.su[o] \in StartupRes
 
 B(v) == IF v THEN "T" ELSE "F"
+NextIsRdwrConnect == l < Len(T) /\ T[l + 1].a = "Connect" /\ T[l + 1].o = "rdwr"
 \* which spec action an event announces, with its arguments checked against the spec's prediction
 Match ==
     CASE Ev.a = "Begin"    -> Begin
       [] Ev.a = "Startup"  -> Startup /\ Ev.o = role /\ Ev.r = cfg.su[role]
       [] Ev.a = "Term"     -> (Poll \/ PresPoll \/ RunPoll \/ ServePoll) /\ Ev.r = B(TermNow)
       [] Ev.a = "Sense"    -> RdwrSense /\ Ev.r = SenseRes
-      [] Ev.a = "Discover" -> (IF Ev.o = "rdwr" THEN RdwrDiscover ELSE Ev.o = "card" /\ CardDiscover)
+      \* a disturbed activation (env tagX) either yields a tag or not: what the real run did shows in its
+      \* next event, which selects the branch of the model
+      [] Ev.a = "Discover" -> (IF Ev.o = "rdwr"
+                               THEN RdwrDiscoverP(cfg.env # "tagX" \/ ~cfg.disc["rdwr"] \/ found # "tag" \/ NextIsRdwrConnect)
+                               ELSE Ev.o = "card" /\ CardDiscover)
                               /\ Ev.r = B(cfg.disc[Ev.o])
       [] Ev.a = "Connect"  -> (CASE Ev.o = "rdwr" -> RdwrConnect [] Ev.o = "llcp" -> LlcConnect
                                  [] Ev.o = "card" -> CardConnect [] OTHER -> FALSE)
